@@ -4,6 +4,9 @@ behaviour-preserving refactoring (a case on which no check may alarm).  The sub-
 from /verif.  usage: neutral_prompt.py <nn> <worktree dir> > prompt.txt"""
 import sys
 
+OWN = ("no list this time: surprise the reviewer with ordinary Rust 2021 idioms of your own choosing - prefer ones that change the *shape* of the code "
+       "(control flow, data structures, how values travel between functions) over cosmetic ones; say in NOTES.md which idioms you used")
+
 SCOPES = {
     '21': ("the receive path in src/smbus.rs (`get_smbus_headers`, `decode_packet`, `get_mctp_control_packet`, `get_length`)",
            "Option/Result combinators instead of if/return ladders (`ok_or`, `ok_or_else`, `and_then`, `map`, `filter`, `?`), "
@@ -47,6 +50,29 @@ SCOPES = {
            "result, `iter().enumerate()` instead of index loops, `first()`/`last()`/`get(..)` instead of guarded indexing, `copy_from_slice` "
            "instead of element loops, `fill(0)`, `swap`, merged identical match arms, removed needless `return`/`clone`/borrows, "
            "`#[must_use]`, `Self` in impls"),
+    # round 5: the agent chooses; one emphasis each
+    '31': ("a part of the crate of your own choice (say which in NOTES.md); new private modules in new files under src/ are allowed this time",
+           "traits with associated consts and default methods, const generics, small generic helpers with trait bounds, `impl Trait` arguments and "
+           "return types, one trait object (`&dyn Fn(..)` or `&mut dyn FnMut(..)`) where it removes duplication"),
+    '32': ("a part of the crate of your own choice (say which in NOTES.md)",
+           "iterator adapters: `skip`, `take`, `step_by`, `scan`, `peekable`, `windows`, `chunks_exact` + `remainder`, `zip`, `rev`, `enumerate`, "
+           "`take_while`, `min_by_key`/`max`, `last`, `sum::<u16>()`, `array::map`, `each_ref`, `iter::repeat`, `iter::once`, `chain`, `flatten`, `flat_map`"),
+    '33': ("the state kept in `MCTPSMBusContext`, `MCTPSMBusContextRequest` and `MCTPSMBusContextResponse` (EID cells, vendor ID selector, UUID, configuration slices) and every function that reads or updates it",
+           "`Cell::replace`, `Cell::take`, `Cell::update` or get/set pairs restructured, a private `State`/`Identity` sub-struct holding the fields, accessor "
+           "methods instead of direct field access, `Option<NonZeroU8>` or a private newtype for values where it fits, `core::mem::replace`/`take`; the values "
+           "observable through the public getters and through the packets must stay identical after every call sequence"),
+    '34': ("the bit-level code: header views in src/base_packet.rs, src/control_packet.rs, src/smbus_proto.rs and every place that packs or unpacks bit fields",
+           "masks and shifts rewritten in equivalent forms (`x * 16` / `x << 4`, `x / 2` / `x >> 1`, `x % 8` / `x & 7`, `a + b` where the fields do not overlap / `a | b`), "
+           "`rotate_left`, `swap_bytes`, `reverse_bits` only where exactly equivalent, `u8::from(bool)`, `count_ones`, `leading_zeros`, `is_power_of_two` in validators "
+           "where exactly equivalent, `core::num::Wrapping`, `wrapping_*`/`checked_*`/`saturating_*` where they cannot change a result, const fns computing masks"),
+    '35': ("comparisons and searches across the crate (vendor ID matching, message type lists, command tables, address / EID checks, PEC comparison)",
+           "slice equality `a == b`, `starts_with`/`ends_with`, `contains`, `iter().position`/`any`/`all`/`find`, `cmp`/`Ordering` matches, `min`/`max`/`clamp`, "
+           "`abs_diff`, `Option::zip`, `bool::then`, `Result::and_then`, `matches!` with guards, sorted-table lookup written by hand (no `binary_search`)"),
+    '36': ("a part of the crate of your own choice (say which in NOTES.md)", OWN),
+    '37': ("the request side (src/smbus_request.rs and what it calls in src/mctp_traits.rs, src/smbus_proto.rs, src/base_packet.rs)", OWN),
+    '38': ("the responder (`process_packet` in src/smbus.rs, src/smbus_response.rs and what they call)", OWN),
+    '39': ("the decoder (`decode_packet`, `get_length` and their helpers in src/smbus.rs, the length tables in src/mctp_traits.rs, the `From<u8>` tables)", OWN),
+    '40': ("src/mctp_traits.rs, src/smbus_proto.rs and src/base_packet.rs together (the packet assembly pipeline)", OWN),
 }
 
 
@@ -68,7 +94,7 @@ Hard requirements:
   bytes left untouched), same panics (a panic must stay a panic and a non-panic must not become one; the message may
   differ), same state changes. Existing quirks and bugs are part of the behaviour: do not fix anything.
 * No public name, signature or trait changes; no `unsafe`; no new dependencies or features; do not edit, add or remove any
-  test inside src/; no new files under src/ (new private items in existing files are fine); no dead code; no warnings
+  test inside src/; no new files under src/ unless the task text above explicitly allows them (new private items in existing files are fine); no dead code; no warnings
   (`cargo build --offline` and `cargo clippy --offline` stay clean); run `cargo fmt` on the files you touched.
 * `cd {wt} && CARGO_NET_OFFLINE=true cargo test --offline` must still print `test result: ok. 59 passed` (unit tests)
   and `test result: ok. 4 passed` (doc tests).
